@@ -79,10 +79,25 @@ SLock(j) ==    \* with self._lock: delegate.submit; _futures.add; add_done_callb
   /\ fst' = [fst EXCEPT ![j] = "pending"]
   /\ edl' = [edl EXCEPT ![j] = now + cfgD[j]]
   /\ gate' = NoOne
-  /\ pc' = [pc EXCEPT ![Sub(j)] = "done", ![Env(j)] = "e_sleep"]
-  /\ Emit(<<ES("DelegateSubmit", "client", now, j, "tap"), E1("SubmitRet", "client", now, j)>>)
+  \* seeded model bug submit_cancels_late (change C10-r4m1): having left the gate, submit() looks at the flag and cancels
+  \* the future itself if it finds it set - a second cancel() when the sweep has covered the future already
+  /\ pc' = [pc EXCEPT ![Sub(j)] = IF Bug = "submit_cancels_late" THEN "s_late" ELSE "done", ![Env(j)] = "e_sleep"]
+  /\ Emit(<<ES("DelegateSubmit", "client", now, j, "tap")>>
+          \o (IF Bug = "submit_cancels_late" THEN <<>> ELSE <<E1("SubmitRet", "client", now, j)>>))
   /\ actor' = Sub(j)
   /\ UNCHANGED <<stale, cfg, lock, isdown, now>>
+
+G_SLate(j) == pc[Sub(j)] = "s_late"
+SLate(j) ==    \* (model bug only)
+  /\ G_SLate(j)
+  /\ pc' = [pc EXCEPT ![Sub(j)] = "done"]
+  /\ IF isdown
+       THEN /\ fst' = [fst EXCEPT ![j] = IF @ = "pending" THEN "cancelled" ELSE @]
+            /\ tracked' = tracked \ {j}
+            /\ Emit(<<ES("CancelArrived", "client", now, j, "tap"), E1("SubmitRet", "client", now, j)>>)
+       ELSE /\ UNCHANGED <<fst, tracked>> /\ Emit(<<E1("SubmitRet", "client", now, j)>>)
+  /\ actor' = Sub(j)
+  /\ UNCHANGED <<stale, cfg, gate, lock, isdown, edl, now>>
 
 \* ------------------------------------------------------------------ the delegate's work
 G_EFinish(j) == pc[Env(j)] = "e_sleep" /\ now >= edl[j]
@@ -112,7 +127,9 @@ Finish(snp) ==
   /\ pc' = [pc EXCEPT ![SH] = "done"]
   /\ LET sw == IF Bug = "skip_one" /\ snp # {} THEN snp \ {CHOOSE x \in snp : TRUE} ELSE snp IN
        Emit(SweepEvents(sw, fst, FALSE) \o
-            <<Ev("DelegateShutdown", "-", "shutdown", now, -1, -1, 1, 0, 0, "tap", <<>>), ES("ShutdownRet", "shutdown", now, -1, "top")>>
+            <<Ev("DelegateShutdown", "-", "shutdown", now, -1, -1, 1, 0, 0, "tap", <<>>),
+              Ev("DelegateShutdownRet", "-", "shutdown", now, -1, -1, -1, -1, -1, "tap", <<>>),
+              ES("ShutdownRet", "shutdown", now, -1, "top")>>
             \o SweepEvents(sw, fst, TRUE))
 
 G_ShSleep == pc[SH] = "sh_sleep" /\ now >= ShutdownAt
@@ -165,7 +182,7 @@ OEnd ==
   /\ UNCHANGED <<stale, cfg, gate, lock, isdown, tracked, fst, edl, now>>
 
 AnyEnabled ==
-  \/ \E j \in Jobs : G_SSleep(j) \/ G_SGate(j) \/ G_SLock(j) \/ G_EFinish(j)
+  \/ \E j \in Jobs : G_SSleep(j) \/ G_SGate(j) \/ G_SLock(j) \/ G_SLate(j) \/ G_EFinish(j)
   \/ G_ShSleep \/ G_ShLock1 \/ G_ShSnap \/ G_ShGate \/ G_ShLock2 \/ G_OEnd
 Deadlines ==
   {cfgS[j] : j \in {x \in Jobs : pc[Sub(x)] = "s_sleep"}}
@@ -179,7 +196,7 @@ Tick ==
   /\ UNCHANGED <<stale, cfg, pc, gate, lock, isdown, tracked, fst, edl, obs, viol, hist>>
 
 Next ==
-  \/ \E j \in Jobs : SSleep(j) \/ SGate(j) \/ SLock(j) \/ EFinish(j)
+  \/ \E j \in Jobs : SSleep(j) \/ SGate(j) \/ SLock(j) \/ SLate(j) \/ EFinish(j)
   \/ ShSleep \/ ShLock1 \/ ShSnap \/ ShGate \/ ShLock2 \/ OEnd \/ Tick
 Spec == Init /\ [][Next]_vars
 
